@@ -47,9 +47,25 @@ struct Tol {
     sum: f64,
     mean: f64,
     dist_rel: f64,
+    e_sum: f64,
+    e_mean: f64,
+    n: f64,
+}
+
+/// largest magnitude in one column of the data
+fn col_scale(data: &[Vec<f64>], c: usize) -> f64 {
+    data.iter().map(|r| r[c].abs()).filter(|v| v.is_finite()).fold(0.0, f64::max)
 }
 
 impl Tol {
+    /// sums and means are per-coordinate quantities: a column's sum over its rows carries roundings of THAT
+    /// column's magnitude only (a fine column next to a column of magnitude 1e8 is judged on its own scale)
+    fn sum_c(&self, s_c: f64) -> f64 {
+        (self.e_sum * s_c * self.n + 4e-10 * self.n).min(self.sum)
+    }
+    fn mean_c(&self, s_c: f64) -> f64 {
+        (self.e_mean * s_c + 4e-10).min(self.mean)
+    }
     /// How much farther than the nearest centroid an attached centroid may be, given the two squared
     /// distances. Condition-aware: the implementation subtracts coordinates of magnitude <= s whose stored
     /// values (centroids are rounded means) carry an absolute error ~eps*s, so a squared distance d2 carries
@@ -93,6 +109,9 @@ fn tol_for(f32m: bool, s: f64, n: usize, p: usize) -> Tol {
         sum: e_sum * s * n as f64 + 2.0 * merge * n as f64,
         mean: e_mean * s + 2.0 * merge,
         dist_rel: e_dist,
+        e_sum,
+        e_mean,
+        n: n as f64,
     }
 }
 
@@ -181,11 +200,13 @@ fn judge_step(
             let e = (sums[j][c] - ref_sums[j][c]).abs();
             if s > 0.0 {
                 rep.max(if f32m { "sum_err_rel_f32" } else { "sum_err_rel_f64" }, e / (s * n as f64));
+                rep.max(if f32m { "sum_err_over_column_tol_f32" } else { "sum_err_over_column_tol_f64" }, e / tol.sum_c(col_scale(data, c)));
             }
-            if !(e <= tol.sum) {
+            let tsum = tol.sum_c(col_scale(data, c));
+            if !(e <= tsum) {
                 return Err((
                     "sum-mismatch",
-                    format!("cluster {} coordinate {}: reported sum {:e}, sum over its rows {:e} (tol {:e})", j, c, sums[j][c], ref_sums[j][c], tol.sum),
+                    format!("cluster {} coordinate {}: reported sum {:e}, sum over its rows {:e} (tol {:e})", j, c, sums[j][c], ref_sums[j][c], tsum),
                 ));
             }
         }
@@ -405,8 +426,9 @@ impl C12 {
                                     let e = (cents[j][c] - mean).abs();
                                     if s > 0.0 {
                                         rep.max(if case.f32m { "centroid_mean_err_rel_f32" } else { "centroid_mean_err_rel_f64" }, e / s);
+                                        rep.max(if case.f32m { "centroid_mean_err_over_column_tol_f32" } else { "centroid_mean_err_over_column_tol_f64" }, e / tol.mean_c(col_scale(data, c)));
                                     }
-                                    if !(e <= tol.mean) {
+                                    if !(e <= tol.mean_c(col_scale(data, c))) {
                                         rep.fail(
                                             "centroid-not-mean",
                                             "model",
@@ -608,6 +630,21 @@ fn gen_data(r: &mut Xo, n: usize, p: usize, f32m: bool) -> (Vec<Vec<f64>>, &'sta
             }
         }
     }
+    // sometimes the first column holds neighbouring floats far from the origin (base + 0..3 ulp: the midpoint of two
+    // of them rounds onto one of them, a split there is degenerate) while the other columns vary on a scale BELOW that
+    // ulp, yet far above the tree's absolute merge radius: rows that differ visibly only in the fine columns
+    let mut name = name;
+    if p > 1 && r.chance(0.06) {
+        let base: f64 = if f32m { *r.pick(&[1.0e4, 3.0e5, -2.5e4]) } else { *r.pick(&[1.0e8, 3.0e9, -2.5e8]) };
+        let ulp = if f32m { (f32::from_bits((base as f32).to_bits() + 1) - base as f32).abs() as f64 } else { (f64::from_bits(base.to_bits() + 1) - base).abs() };
+        for row in data.iter_mut() {
+            row[0] = base + r.below(4) as f64 * ulp * base.signum();
+            for v in row.iter_mut().skip(1) {
+                *v = r.below(4) as f64 * 0.25 * ulp;
+            }
+        }
+        name = "ulp-column+fine-columns";
+    }
     // sometimes one column is constant (a box that is flat in that dimension at every level of the tree)
     if p > 1 && r.chance(0.1) {
         let col = r.below(p as u64) as usize;
@@ -766,6 +803,32 @@ fn gen_case(batch: &str, _index: u64, seed: u64) -> Case {
     let tape_seed = Xo::fork(seed, "schedule").u64();
     let f32m = batch == "fit-f32" || batch == "direct-f32";
     let crowded = batch == "fit-crowded";
+    if batch == "fit-deep-nest" {
+        // a nest as deep as there are rows: column 0 grows geometrically (b^i, up to ~1e100), so every split of the
+        // tree's widest side peels off the outermost row; the other columns hold small integers, so the rows at the
+        // bottom of the nest still differ visibly. Depths of 150..300 (ordinary data: 10..30).
+        let n = pr.usize_in(150, 300);
+        let p = pr.usize_in(1, 3);
+        let b = *pr.pick(&[2.0f64, 2.25, 1.7]);
+        let sign = if pr.chance(0.3) { -1.0 } else { 1.0 };
+        let mut data: Vec<Vec<f64>> = (0..n)
+            .map(|i| {
+                let mut row = vec![0.0; p];
+                row[0] = sign * b.powi(i as i32);
+                for v in row.iter_mut().skip(1) {
+                    *v = r.below(3) as f64;
+                }
+                row
+            })
+            .collect();
+        if pr.chance(0.5) {
+            r.shuffle(&mut data);
+        }
+        let mut k = pr.usize_in(2, 4);
+        ensure_distinct(&mut data, &mut k, false);
+        let max_iter = *pr.pick(&[1usize, 2, 3, 10]);
+        return Case { mode: "fit".into(), data, k, max_iter, f32m: false, centroids: vec![], queries: vec![], tape: TapeSpec::prng(tape_seed), kind: "deep-nest/prng".into(), ctor: pr.below(6) as u8 };
+    }
     if batch == "fit-tie-lattice" {
         // one or two coordinates on a zero-centred lattice with a step that is not a dyadic rational (0.1, 1/3, 0.7,
         // 0.3): rows sit exactly halfway between centroids, ties are re-broken when a recomputed centroid changes in
@@ -929,6 +992,7 @@ impl Property for C12 {
             Batch { name: "fit-prng", count: if q { 60_000 } else { 4_000_000 }, simulated: true, exhaustive: false, note: "k-means++ draws served from the seeded PRNG tape; in-run probe judged at every Lloyd step" },
             Batch { name: "fit-crowded", count: if q { 40_000 } else { 2_000_000 }, simulated: true, exhaustive: false, note: "4..12 rows, up to 8 clusters: coarse lattices (clusters empty out and are re-populated) and near-duplicate pairs a relative 1e-6..1e-12 of the range apart (>= 1e-8 absolute)" },
             Batch { name: "fit-tie-lattice", count: if q { 150_000 } else { 4_000_000 }, simulated: true, exhaustive: false, note: "12..60 rows on a zero-centred lattice with a non-dyadic step in 1 or 2 columns, k = 2..3, full-length fits: rows exactly halfway between centroids, ties re-broken by last-bit changes, distortion rising by an ulp" },
+            Batch { name: "fit-deep-nest", count: if q { 3_000 } else { 100_000 }, simulated: true, exhaustive: false, note: "150..300 rows whose first column grows geometrically (b^i up to ~1e100) and whose other columns hold small integers: the tree is as deep as there are rows" },
             Batch { name: "fit-extreme", count: if q { 40_000 } else { 2_000_000 }, simulated: true, exhaustive: false, note: "extreme words (cut-off 0.0, 1-2^-53, first/last row) injected at random draw sites" },
             Batch { name: "fit-forced-first", count: if q { 12_000 } else { 500_000 }, simulated: true, exhaustive: false, note: "first centroid forced onto a chosen (often duplicated / last) row" },
             Batch { name: "fit-f32", count: if q { 12_000 } else { 500_000 }, simulated: true, exhaustive: false, note: "same as fit-prng in single precision (tolerances scaled)" },
